@@ -248,7 +248,20 @@ func refMatch(fs *FlowSpec, probes []*sim.ProbeRec, pkt []byte) Match {
 			}
 			m := Match{Kind: Genuine, Probe: idx(last), TTL: last.TTL(), From: ip.Src, Dest: true, Form: "tcp-direct"}
 			if ack && l4.Ack != last.L4.Seq+1 {
-				m.Kind = DontCare // acknowledges another probe's sequence number (late reply in Paris mode, or foreign)
+				// the acknowledgement number is the reply's identifier. If it answers an earlier probe of
+				// this run (Paris mode: per-probe sequence numbers; a late reply) the reply may be dropped
+				// or credited to that probe, never to the latest one; if it answers no probe of this run
+				// it belongs to another incarnation of the flow and must not create a hop
+				var owner *sim.ProbeRec
+				for _, p := range good {
+					if l4.Ack == p.L4.Seq+1 {
+						owner = p
+					}
+				}
+				if owner == nil {
+					return Match{}
+				}
+				m.Kind, m.Probe, m.TTL = DontCare, idx(owner), owner.TTL()
 			}
 			if (syn && rst) || fl&codec.FlagFIN != 0 || !clean {
 				m.Kind = DontCare
